@@ -224,6 +224,20 @@ func shortChs(chs []string) string {
 	return "{" + strings.Join(out, ",") + "}"
 }
 
+// wgOfCall identifies the WaitGroup a sync.WaitGroup method call operates on:
+// the receiver argument, or, for a call of a bound method value (wg.Done kept
+// in a variable or deferred as a value), the receiver bound by the closure.
+func wgOfCall(ci ssa.CallInstruction) string {
+	cc := ci.Common()
+	if len(cc.Args) > 0 {
+		return wgIdent(cc.Args[0])
+	}
+	if mc, ok := cc.Value.(*ssa.MakeClosure); ok && len(mc.Bindings) == 1 {
+		return wgIdent(mc.Bindings[0])
+	}
+	return "?"
+}
+
 // wgIdent identifies a WaitGroup receiver by field.
 func wgIdent(v ssa.Value) string {
 	if id, ok := lockIdent(v); ok {
@@ -241,7 +255,7 @@ func (w *WaitGraph) CheckLW2(r *Report, rule string) int {
 	for _, fn := range w.Funcs {
 		allInstrs(fn, func(in ssa.Instruction) {
 			if ci, ok := in.(ssa.CallInstruction); ok && callIs(ci, "sync", "WaitGroup", "Done") {
-				id := wgIdent(ci.Common().Args[0])
+				id := wgOfCall(ci)
 				counted[id] = append(counted[id], fn)
 			}
 		})
@@ -252,7 +266,7 @@ func (w *WaitGraph) CheckLW2(r *Report, rule string) int {
 			if !ok || !callIs(call, "sync", "WaitGroup", "Wait") {
 				return
 			}
-			id := wgIdent(call.Call.Args[0])
+			id := wgOfCall(call)
 			ls := w.E.At(call)
 			n++
 			construct := fmt.Sprintf("%s wg.Wait(%s)", FuncName(w.P, fn), shortID(id))
@@ -448,7 +462,7 @@ func CheckTracked(p *Prog, r *Report, rule string, fns []*ssa.Function, wgID str
 		n++
 		added := false
 		allInstrs(g.Spawner, func(in ssa.Instruction) {
-			if c, ok := in.(*ssa.Call); ok && callIs(c, "sync", "WaitGroup", "Add") && wgIdent(c.Call.Args[0]) == wgID && instrDominates(c, g.Go) {
+			if c, ok := in.(*ssa.Call); ok && callIs(c, "sync", "WaitGroup", "Add") && wgOfCall(c) == wgID && instrDominates(c, g.Go) {
 				added = true
 			}
 		})
@@ -456,7 +470,7 @@ func CheckTracked(p *Prog, r *Report, rule string, fns []*ssa.Function, wgID str
 		if g.Body != nil {
 			ff := &FlagFlow{Fn: g.Body, Must: true, Transfer: func(in ssa.Instruction, st uint64) uint64 {
 				if ci, ok := in.(ssa.CallInstruction); ok {
-					if callIs(ci, "sync", "WaitGroup", "Done") && wgIdent(ci.Common().Args[0]) == wgID {
+					if callIs(ci, "sync", "WaitGroup", "Done") && wgOfCall(ci) == wgID {
 						return st | 1
 					}
 					// a deferred closure that calls Done
@@ -464,7 +478,7 @@ func CheckTracked(p *Prog, r *Report, rule string, fns []*ssa.Function, wgID str
 						if f := staticCallee(d); f != nil {
 							hit := false
 							allInstrs(f, func(j ssa.Instruction) {
-								if cj, ok := j.(ssa.CallInstruction); ok && callIs(cj, "sync", "WaitGroup", "Done") && wgIdent(cj.Common().Args[0]) == wgID {
+								if cj, ok := j.(ssa.CallInstruction); ok && callIs(cj, "sync", "WaitGroup", "Done") && wgOfCall(cj) == wgID {
 									hit = true
 								}
 							})
